@@ -175,7 +175,7 @@ def run_unit(ctx, rmodel, exe, ncases):
     ilines = out.split("\n")
     rc2, mout, merr = vlib.sh2([rmodel], stdin=feed, timeout=900)
     mlines = mout.split("\n")
-    stats = {"cases": len(cases), "mismatch": 0, "oracle_fail": 0, "with_uniquifier_last": 0, "dup_free_checked": 0,
+    stats = {"cases": len(cases), "mismatch": 0, "oracle_fail": 0, "with_uniquifier_last": 0, "with_uniquifier_then_single_char": 0, "dup_free_checked": 0,
              "generator": g.stats}
     if rc != 0:
         n_done = len([l for l in ilines if l.strip()])
@@ -194,11 +194,12 @@ def run_unit(ctx, rmodel, exe, ncases):
             nontrivial.add(case)
         bad = oracle_unit(case, il)
         obs, full, nd = parse_obs(il)
-        if fs.endswith("u"):
-            stats["with_uniquifier_last"] += 1
+        if fs.endswith("u") or fs.endswith("us"):
+            # the two proved orders: [...; uniquifier] and [...; uniquifier; single_char_filter]
+            stats["with_uniquifier_last" if fs.endswith("u") else "with_uniquifier_then_single_char"] += 1
             stats["dup_free_checked"] += 1
             if nd is False:
-                bad.append(("duplicate-text", "uniquifier last in the chain but the list repeats a text: %s" % " ".join(full)))
+                bad.append(("duplicate-text", "filter chain %s but the list repeats a text: %s" % (fs, " ".join(full))))
         for key, what in bad[:1]:
             stats["oracle_fail"] += 1
             ctx.violation("unit:%s:filters=%s" % (key, fs), "real Menu violates the property: " + what,
@@ -501,7 +502,28 @@ MUTATION_DRILLS = []
 
 MANIFEST = {
     "category": "proof",
-    "technique": "Coq theorems over a generator-state model of translations/filters/Menu/API paging + extracted-model vs real Menu/API correspondence",
-    "text": "TBD",
-    "note": "TBD",
+    "technique": "Coq theorems (induction over generator states and call sequences) on a functional port of translation.cc/menu.cc/"
+                 "uniquifier/single_char_filter/charset_filter and the API's page arithmetic + extracted-model vs real Menu/API "
+                 "correspondence + page-view-vs-iterator oracle on stock schemas",
+    "text": "Properties_C04.v proves of the model coq/MenuM (translations as explicit generator states: Unique, Echo with its Compare "
+            "override, Fifo, Union, Merged with Elect/Compare, Cache, Distinct, Prefetch/single-char-first, charset filter, Uniquified "
+            "which rewrites an earlier cache entry; Menu::AddTranslation/AddFilter/Prepare/CreatePage/GetCandidateAt/empty; "
+            "RimeGetContext, candidate_list_*, highlight_*, change_page, Selector paging), for ALL translation trees, filter chains, "
+            "fetch states and call sequences (no bound): Prepare only appends and never changes the text/comment at an index "
+            "(prepare_appends); CreatePage/get_context = firstn ps (skipn (p*ps) full_list) and no page iff the window is empty "
+            "(page_is_window, get_context_window); is_last_page set iff nothing follows, for every reachable (well-formed) state "
+            "(last_page_exact, wf_reachable); the iterator enumerates full_list from any offset (iterator_agrees); every report of "
+            "any call sequence shows full_list's text at its index and two reports of an index agree (order_independent, "
+            "reports_stable); NoDup of the texts with the uniquifier last and with the uniquifier followed by single_char_filter "
+            "(uniq_no_dup, uniq_then_single_char_no_dup).  Every run diffs the extracted model against real rime::Menu objects over "
+            "real translation/filter classes injected into a real session (so the real API functions and Selector do the arithmetic) "
+            "on generated cases, and evaluates the property's own oracle (page view vs iterator of a fresh session, last-page flag, "
+            "stability, duplicate texts) on luna_pinyin and cangjie5 of data/minimal.",
+    "note": "Print Assumptions: all theorems closed under the global context (no axioms). Trusted: Coq kernel (vm_compute only in the "
+            "examples), ExtrOcamlBasic extraction + OCaml/C++ glue, the harness. Peek is modelled as pure (CacheTranslation's memo), "
+            "quality as an integer, text as code points; loops use explicit fuel (rem/height) whose sufficiency is validated by the "
+            "correspondence, the theorems hold for every fuel. Not modelled: simplifier/OpenCC, reverse-lookup and schema-list "
+            "Compare overrides, lua/other filters (covered only black-box at API level). The general 'any chain containing the "
+            "uniquifier' statement is kept as C04_uniq_anywhere_full (Definition); proved for the two orders the stock schemas use. "
+            "Finding fixed in /repo: the uniquifier followed by single_char_filter (cangjie5) showed the same text twice.",
 }
